@@ -549,7 +549,8 @@ def shiftprune(states, wavenums, shift, *, grid=1e-5, tol=1e-8):
     k2 = (q2 * grid).astype(float)
 
     # keep only non-zero phase states
-    nonzero = xp.linalg.norm(sm2, axis=tuple(range(sm.ndim - 2)) + (-1,)) > tol
+    axes = tuple(range(sm.ndim - 2)) + (-1,)
+    nonzero = xp.sqrt(xp.sum(xp.abs(sm2) ** 2, axis=axes)) > tol
     nonzero &= nonzero[::-1]  # symmeterize
 
     # prune empty phase-states
